@@ -87,6 +87,15 @@ impl AcbWriter for CsvWriter {
             csv_w.write_record(note_record).map_err(|e| e.to_string())?;
         }
 
+        // Errors are emitted like notes, so that the reason for a truncated
+        // table is not lost in CSV mode.
+        for err in &table_model.errors {
+            let mut err_record = Vec::<String>::with_capacity(n_cols);
+            err_record.resize(n_cols, String::new());
+            err_record[0] = format!("[!] {}", err);
+            csv_w.write_record(err_record).map_err(|e| e.to_string())?;
+        }
+
         csv_w.flush().map_err(|e| e.to_string())?;
 
         Ok(())
